@@ -327,3 +327,36 @@ Proof.
   - rewrite F. eexists; split; [reflexivity|]. now apply mstate_eqb_neq in E.
 Qed.
 
+
+(** ** probe tick: a member whose phi reached the threshold becomes SUSPECT *)
+(** the [is_available] result the tick uses for (the first record of) member [T] *)
+Fixpoint avail_at (ms : list member) (avail : list bool) (T : Z) : bool :=
+  match ms with
+  | [] => true
+  | m :: r => if m_name m =? T then match avail with [] => true | a :: _ => a end
+              else avail_at r (tl avail) T
+  end.
+
+Lemma phi_pass_suspects c : forall ms avail T m,
+  find_member T ms = Some m -> m_state m = Alive ->
+  available c m (avail_at ms avail T) = false ->
+  find_member T (fst (phi_pass c ms avail)) = Some (set_state Suspect m).
+Proof.
+  induction ms as [|x r IH]; intros avail T m; cbn; [discriminate|].
+  destruct (phi_pass c r (tl avail)) as [r' us] eqn:P.
+  specialize (IH (tl avail) T m). rewrite P in IH; cbn in IH.
+  destruct (m_name x =? T) eqn:E.
+  - intros [= <-] Ha Hav. rewrite Ha, Hav. cbn. rewrite E. reflexivity.
+  - intros F Ha Hav. destruct (mstate_eqb (m_state x) Alive && _); cbn; rewrite E; auto.
+Qed.
+
+Lemma tick_phi_suspects c now st avail shuf T m :
+  find_member T (members st) = Some m -> m_state m = Alive ->
+  available c m (avail_at (members st) avail T) = false ->
+  find_member T (members (fst (step c now st (ITick avail shuf)))) = Some (set_state Suspect m).
+Proof.
+  intros F Ha Hav. cbn [step].
+  pose proof (phi_pass_suspects c (members st) avail T m F Ha Hav) as H.
+  destruct (phi_pass c (members st) avail) as [ms1 sus]; cbn in H.
+  destruct (next_probe_target ms1 (order st) (pidx st) shuf) as [[[t|] ord'] idx']; cbn; exact H.
+Qed.
